@@ -24,6 +24,7 @@ func TestMain(m *testing.M) { vt.Main(m, "C04") }
 const prelude = `MyErr := Err.bear({_name: "MyErr"})
 P := {
   f: m{|a| raise ValueErr.new("boom#{.v}") if .k == 2; raise StopIterErr.new("stop#{.v}") if .k == 3; raise MyErr.new("mine#{.v}") if .k == 4; nil if .k == 1 else .v * 10 + a},
+  _missing: m{|name| raise ValueErr.new("boom#{.v}") if .k == 2; raise StopIterErr.new("stop#{.v}") if .k == 3; raise MyErr.new("mine#{.v}") if .k == 4; nil if .k == 1 else [name, .v, \0[2:]]},
   g: m{|e, a| raise ValueErr.new("boom#{e.v}") if e.k == 2; raise StopIterErr.new("stop#{e.v}") if e.k == 3; raise MyErr.new("mine#{e.v}") if e.k == 4; nil if e.k == 1 else .bro({k: 0, v: .v + e.v + a})},
 }
 nil`
@@ -379,6 +380,15 @@ func genObjectCase(t *rapid.T) Case {
 	switch rapid.IntRange(0, 5).Draw(t, "main") {
 	case 0, 1, 2:
 		c.Main, c.Prop = "@", "f"
+		if rapid.IntRange(0, 2).Draw(t, "via _missing") == 0 {
+			// a name served by the elements' _missing, which reports every argument it received
+			c.Prop = rapid.SampledFrom([]string{"zz", "undefined1", "q?"}).Draw(t, "missing name")
+			args := []string{}
+			for n := rapid.IntRange(0, 9).Draw(t, "nargs"); n > 0; n-- {
+				args = append(args, fmt.Sprint(10+len(args)))
+			}
+			c.Arg = strings.Join(args, ", ")
+		}
 		if c.Add == "=" {
 			// raise inside =@ is judged by C07; here =@ callees return values or nil only
 			c.Recv = strings.NewReplacer("k: 2", "k: 1", "k: 3", "k: 0", "k: 4", "k: 1").Replace(c.Recv)
